@@ -217,33 +217,28 @@ def run(ctx, chk):
                     for ef in q.effects:
                         if ef['kind'] == 'call' and common.ptr_advance_bytes(fb, ef) is not None:
                             offs[side] = common.ptr_advance_bytes(fb, ef)
-    # the type each side actually moves through its record pointer: the type argument of the raw-pointer
-    # read reachable from ShmReader::snapshot and of the raw-pointer write reachable from ShmWriter::write
+    # what each side moves through its record pointer: every access is a whole record or whole fields of the one published
+    # layout (so a whole-record copy on one side and a field-by-field copy on the other still agree on where each field is)
+    from .seqlock_model import WriterModel, ReaderModel, record_coverage
     ptr_tys = {}
-    for b in fb.bodies(common.SHM):
-        side = 'ShmReader' if b.name == 'snapshot' and (b.impl_self or '').endswith('ShmReader') else \
-            'ShmWriter' if b.name == 'write' and (b.impl_self or '').endswith('ShmWriter') else None
-        if side is None:
+    for side, model, kind in (('ShmWriter', WriterModel, 'dwrite'), ('ShmReader', ReaderModel, 'dread')):
+        mdl = model(fb, chk, 'C01.W5')
+        if not mdl.ok:
             continue
-        want = ('::read_volatile', '::read') if side == 'ShmReader' else ('::write_volatile', '::write')
-        tys = set()
-        for ob, bb, t, fn in common.reachable_calls(fb, b):
-            if fn['path'].startswith('std::ptr::') and fn['path'].endswith(want) and fn.get('targs'):
-                tt = ob.crate.types[fn['targs'][0]]
-                if tt.get('k') == 'param':
-                    # inside a generic helper (`read_consistent<G, T>`): the types it is instantiated with
-                    tys |= common.concrete_type_args(fb, ob, tt['s']) or {tt['s']}
-                else:
-                    tys.add(ob.crate.tystr(fn['targs'][0]))
-                chk.analysed['call_sites'] += 1
-        if len(tys) == 1:
-            ptr_tys[side] = tys.pop()
-        elif tys:
-            ptr_tys[side] = 'several: %s' % sorted(tys)
+        n_acc, bad = 0, []
+        for p_, evs_ in zip(mdl.paths, mdl.evs):
+            accs = [e for e in evs_ if e.kind == kind and e.field == 'ceb']
+            if not accs:
+                continue
+            cov, unc, misal, unk = record_coverage(fb, p_, evs_, kind)
+            n_acc += len(accs)
+            bad += [e.site for e, lo, hi in misal] + [e.site for e in unk]
+            chk.analysed['call_sites'] += len(accs)
+        ptr_tys[side] = 'published layout' if n_acc and not bad else 'no record access found' if not n_acc else 'off-layout or unknown extent at %s' % sorted(set(bad))
     chk.ob('C01.W5', 'record:same-offset', hdrl is not None and offs.get('reader') == offs.get('writer') == hdrl['size'], '',
            'record pointer offsets %s (header size %s)' % (offs, hdrl['size'] if hdrl else None))
-    chk.ob('C01.W5', 'record:same-pointee', len(set(ptr_tys.values())) == 1 and len(ptr_tys) == 2 and list(ptr_tys.values())[0].endswith('ClockErrorBound'), '',
-           'record pointee types %s' % ptr_tys)
+    chk.ob('C01.W5', 'record:same-pointee', len(ptr_tys) == 2 and set(ptr_tys.values()) == {'published layout'}, '',
+           'record accesses of write() / snapshot() against the layout of ClockErrorBound: %s' % ptr_tys)
     # ---------------------------------------------------------------- I imports
     import importlib
     for pid, rules in IMPORTS.items():
